@@ -501,6 +501,21 @@ func dispatch(op string, a []string) string {
 			return "OK nil" + order
 		}
 		return "OK " + showListed(q) + " base=" + hexs(q.Basename()) + " ext=" + hexs(q.Ext()) + order
+	case "sinfo":
+		// the documented seqinfo pipeline, re-done with library calls:
+		// hash1 dir base range pad ext inverted index frame template pattern
+		return sinfo(a)
+	case "fmt":
+		// library Format of a parsed pattern: pattern style template
+		q, err := fileseq.NewFileSequencePad(a[0], fileseq.PadStyle(argz(a[1])))
+		if err != nil {
+			return "ERR"
+		}
+		f, ferr := q.Format(a[2])
+		if ferr != nil {
+			return "OK s=" + hexs("TEMPLATE-ERROR")
+		}
+		return "OK s=" + hexs(f)
 	case "clean":
 		d, f := filepath.Split(a[0])
 		return fmt.Sprintf("OK clean=%s dir=%s file=%s", hexs(filepath.Clean(a[0])), hexs(d), hexs(f))
@@ -549,4 +564,83 @@ func main() {
 			break
 		}
 	}
+}
+
+// sinfo applies, with plain library calls, what seqinfo documents for its options:
+// reformat first, then component overrides, then inversion, then index / frame selection.
+func sinfo(a []string) string {
+	if len(a) != 11 {
+		return "BADARGS"
+	}
+	st := fileseq.PadStyleHash4
+	if argz(a[0]) != 0 {
+		st = fileseq.PadStyleHash1
+	}
+	pat := a[10]
+	errOut := "OK error=1 string=" + hexs(pat)
+	q, err := fileseq.NewFileSequencePad(pat, st)
+	if err != nil {
+		return errOut
+	}
+	if a[9] != "" {
+		f, ferr := q.Format(a[9])
+		if ferr != nil {
+			return errOut
+		}
+		if q, err = fileseq.NewFileSequencePad(f, st); err != nil {
+			return errOut
+		}
+	}
+	if a[1] != "" {
+		q.SetDirname(a[1])
+	}
+	if a[2] != "" {
+		q.SetBasename(a[2])
+	}
+	if a[5] != "" {
+		q.SetExt(a[5])
+	}
+	if a[4] != "" {
+		q.SetPadding(a[4])
+	}
+	if a[3] != "" {
+		if q.SetFrameRange(a[3]) != nil {
+			return errOut
+		}
+	}
+	if argz(a[6]) != 0 {
+		inv := q.InvertedFrameRange()
+		if inv != "" {
+			q.SetFrameRange(inv)
+		} else {
+			q.SetFrameSet(nil)
+		}
+	}
+	sel := func(path string) bool {
+		n, err := fileseq.NewFileSequencePad(path, st)
+		if err != nil {
+			return false
+		}
+		n.SetFrameRange(strconv.Itoa(n.Start()))
+		q = n
+		return true
+	}
+	if a[7] != "N" {
+		p := q.Index(argz(a[7]))
+		if p == "" {
+			return errOut
+		}
+		if !sel(p) {
+			return "PANIC"
+		}
+	}
+	if a[8] != "N" {
+		p, _ := q.Frame(argz(a[8]))
+		if !sel(p) {
+			return "PANIC"
+		}
+	}
+	return fmt.Sprintf("OK error=0 string=%s dir=%s base=%s range=%s pad=%s ext=%s start=%d end=%d length=%d zfill=%d hasRange=%s",
+		hexs(q.String()), hexs(q.Dirname()), hexs(q.Basename()), hexs(q.FrameRange()), hexs(q.Padding()), hexs(q.Ext()),
+		q.Start(), q.End(), q.Len(), q.ZFill(), b01(q.FrameSet() != nil))
 }
